@@ -540,22 +540,55 @@ pub fn render_lines(spec: &CfgSpec, html: &[u8], width: usize) -> Rend<Vec<OLine
     guard(|| with_config!(spec, c => from_result(c.lines_from_read(html, width)).map(conv_lines)))
 }
 
-/// A parsed render tree together with its config; renders any number of times.
-pub fn staged_renders(
-    spec: &CfgSpec,
-    html: &[u8],
-    widths: &[(usize, bool)],
-) -> Rend<Vec<Rend<String>>> {
+/// How one staged render is obtained from the shared render tree.
+#[derive(Clone, Copy, Debug, Serialize, Deserialize, PartialEq, Eq, Hash)]
+pub enum StagedKind {
+    Str,
+    Lines,
+    /// `render_coloured` with the identity map (rich decorator only; Lines otherwise)
+    Coloured,
+}
+
+/// Parse once, build the render tree once, then render a clone of it for every entry.
+pub fn staged_renders(spec: &CfgSpec, html: &[u8], widths: &[(usize, StagedKind)]) -> Rend<Vec<Rend<String>>> {
+    if spec.deco == Deco::Rich {
+        return guard(|| match apply(config::rich(), spec) {
+            Ok(c) => {
+                let dom = match c.parse_html(html) {
+                    Ok(d) => d,
+                    Err(e) => return Rend::Err(format!("parse_html: {:?}", e)),
+                };
+                let tree = match c.dom_to_render_tree(&dom) {
+                    Ok(t) => t,
+                    Err(e) => return Rend::Err(format!("dom_to_render_tree: {:?}", e)),
+                };
+                let mut out = vec![];
+                for &(w, kind) in widths {
+                    let r = match kind {
+                        StagedKind::Str => guard(|| from_result(c.render_to_string(tree.clone(), w))),
+                        StagedKind::Lines => guard(|| {
+                            from_result(c.render_to_lines(tree.clone(), w)).map(|l| olines_to_string(&conv_lines(l)))
+                        }),
+                        StagedKind::Coloured => {
+                            guard(|| from_result(c.render_coloured(tree.clone(), w, |_, s| s.to_string())))
+                        }
+                    };
+                    out.push(r);
+                }
+                Rend::Ok(out)
+            }
+            Err(_) => Rend::CssErr,
+        });
+    }
     guard(|| {
         with_config!(spec, c => {
             let dom = match c.parse_html(html) { Ok(d) => d, Err(e) => return Rend::Err(format!("parse_html: {:?}", e)) };
             let tree = match c.dom_to_render_tree(&dom) { Ok(t) => t, Err(e) => return Rend::Err(format!("dom_to_render_tree: {:?}", e)) };
             let mut out = vec![];
-            for &(w, as_lines) in widths {
-                let r = if as_lines {
-                    guard(|| from_result(c.render_to_lines(tree.clone(), w)).map(|l| olines_to_string(&conv_lines(l))))
-                } else {
-                    guard(|| from_result(c.render_to_string(tree.clone(), w)))
+            for &(w, kind) in widths {
+                let r = match kind {
+                    StagedKind::Str => guard(|| from_result(c.render_to_string(tree.clone(), w))),
+                    _ => guard(|| from_result(c.render_to_lines(tree.clone(), w)).map(|l| olines_to_string(&conv_lines(l)))),
                 };
                 out.push(r);
             }
@@ -564,24 +597,22 @@ pub fn staged_renders(
     })
 }
 
+fn flatten(r: Rend<Vec<Rend<String>>>) -> Rend<String> {
+    match r {
+        Rend::Ok(mut v) => v.pop().unwrap(),
+        Rend::TooNarrow => Rend::TooNarrow,
+        Rend::Err(e) => Rend::Err(e),
+        Rend::CssErr => Rend::CssErr,
+        Rend::Panic(p) => Rend::Panic(p),
+    }
+}
+
 pub fn render_route(spec: &CfgSpec, html: &[u8], width: usize, route: Route) -> Rend<String> {
     match route {
         Route::Str => render(spec, html, width),
         Route::Lines => render_lines(spec, html, width).map(|l| olines_to_string(&l)),
-        Route::StagedStr => match staged_renders(spec, html, &[(width, false)]) {
-            Rend::Ok(mut v) => v.pop().unwrap(),
-            Rend::TooNarrow => Rend::TooNarrow,
-            Rend::Err(e) => Rend::Err(e),
-            Rend::CssErr => Rend::CssErr,
-            Rend::Panic(p) => Rend::Panic(p),
-        },
-        Route::StagedLines => match staged_renders(spec, html, &[(width, true)]) {
-            Rend::Ok(mut v) => v.pop().unwrap(),
-            Rend::TooNarrow => Rend::TooNarrow,
-            Rend::Err(e) => Rend::Err(e),
-            Rend::CssErr => Rend::CssErr,
-            Rend::Panic(p) => Rend::Panic(p),
-        },
+        Route::StagedStr => flatten(staged_renders(spec, html, &[(width, StagedKind::Str)])),
+        Route::StagedLines => flatten(staged_renders(spec, html, &[(width, StagedKind::Lines)])),
         Route::Coloured => {
             if spec.deco == Deco::Rich {
                 guard(|| match apply(config::rich(), spec) {
@@ -592,27 +623,17 @@ pub fn render_route(spec: &CfgSpec, html: &[u8], width: usize, route: Route) -> 
                 render_route(spec, html, width, Route::Lines)
             }
         }
-        Route::StagedColoured => {
-            if spec.deco == Deco::Rich {
-                guard(|| match apply(config::rich(), spec) {
-                    Ok(c) => {
-                        let dom = match c.parse_html(html) {
-                            Ok(d) => d,
-                            Err(e) => return Rend::Err(format!("parse_html: {:?}", e)),
-                        };
-                        let tree = match c.dom_to_render_tree(&dom) {
-                            Ok(t) => t,
-                            Err(e) => return Rend::Err(format!("dom_to_render_tree: {:?}", e)),
-                        };
-                        from_result(c.render_coloured(tree, width, |_, s| s.to_string()))
-                    }
-                    Err(_) => Rend::CssErr,
-                })
-            } else {
-                render_route(spec, html, width, Route::StagedLines)
-            }
-        }
+        Route::StagedColoured => flatten(staged_renders(spec, html, &[(width, StagedKind::Coloured)])),
     }
+}
+
+/// The free functions of the crate root, which must equal their `config::` spellings.
+pub fn free_fn(which: u8, html: &[u8], width: usize) -> Rend<String> {
+    guard(|| match which % 3 {
+        0 => from_result(html2text::from_read(html, width)),
+        1 => from_result(html2text::from_read_rich(html, width)).map(|l| olines_to_string(&conv_lines(l))),
+        _ => from_result(html2text::from_read_with_decorator(html, width, TrivialDecorator::new())),
+    })
 }
 
 /// add_css / add_agent_css on their own.
